@@ -636,6 +636,23 @@ package cache
 //@   loop 0: invariant [survivors] forall k any :: old(ds.m.dom[k]) && ds.m.dom[k] ==> ds.m.vals[k] == old(ds.m.vals[k])
 //@   loop 0: invariant [others] forall k any :: !typeis(k, "string") ==> ds.m.dom[k] == old(ds.m.dom[k])
 
+// the dispatcher options built from the configuration: names, sizes and store URLs are copied as they are
+//@ func convertConfigs(configs []config.CacheConfig) (opts []DispatcherOption)
+//@   nopanic
+//@   modifies nothing
+//@   ensures [len] len(opts) == len(configs)
+//@   ensures [fields] forall i int :: 0 <= i && i < len(configs) ==> opts[i].Name == configs[i].Name && opts[i].Size == configs[i].Size && opts[i].Store == configs[i].Store
+//@   loop 0: modifies nothing
+//@   loop 0: invariant [idx] -1 <= $idx && $idx < len(configs) && len(opts) == $idx + 1 && fresh(opts)
+//@   loop 0: invariant [fields] forall i int :: 0 <= i && i <= $idx ==> opts[i].Name == configs[i].Name && opts[i].Size == configs[i].Size && opts[i].Store == configs[i].Store
+
+// applying the cache section of a configuration: afterwards exactly the configured cache names are registered
+//@ func ResetDispatchers(configs []config.CacheConfig)
+//@   requires [registry] dispatchersOK()
+//@   modifies defaultDispatchers.m.dom, defaultDispatchers.m.vals, $opened
+//@   ensures [registry] dispatchersOK()
+//@   ensures [exact] forall k any :: typeis(k, "string") ==> (defaultDispatchers.m.dom[k] <==> (exists i int :: 0 <= i && i < len(configs) && configs[i].Name == unbox(k, "string")))
+
 // ---- purge (C18) -------------------------------------------------------------------------
 
 //@ func NewDispatchers(opts []DispatcherOption) (ds *dispatchers)
